@@ -52,7 +52,9 @@ static _Bool nv_state_update_along(struct nv_state* s, const struct nv_state* s0
 {
   nv_ver_counter = nv_ver_counter + 1;
   s->ver = nv_ver_counter; s->eval_ver = s->ver; s->origin = s0->ver; s->t = t;
-  s->valid = nv_nondet__Bool(); s->m_fx = nv_nondet_double(); s->dg = nv_nondet_double(); s->gtest = nv_nondet_double(); s->feas = nv_nondet_double(); s->cons_ver = s->ver;
+  /* valid() demands an all-finite point (src/solver/state.cpp) and every coordinate of x0 + t*d is non-finite for a non-finite
+   * t in IEEE arithmetic (scalar lemma: target ieee_point_lemma): a valid trial state has a finite step */
+  s->valid = nv_nondet__Bool() && NV_FINITE(t); s->m_fx = nv_nondet_double(); s->dg = nv_nondet_double(); s->gtest = nv_nondet_double(); s->feas = nv_nondet_double(); s->cons_ver = s->ver;
   s->m_fcalls = nv_nondet_int64_t(); s->m_gcalls = nv_nondet_int64_t();
   return s->valid;
 }
@@ -71,13 +73,16 @@ __CPROVER_requires(NV_STATE_FRESH(state) && NV_STATE_FRESH(state0) && __CPROVER_
 __CPROVER_requires(state0->ver <= nv_ver_counter && nv_ver_counter < UINT64_MAX - 1) \
 __CPROVER_assigns(*state, nv_ver_counter) \
 __CPROVER_ensures(NV_AT(state, state0, step_size) && __CPROVER_return_value == state->valid) \
+__CPROVER_ensures(__CPROVER_return_value ==> NV_FINITE(step_size)) \
 __CPROVER_ensures(nv_ver_counter == __CPROVER_old(nv_ver_counter) + 1 && state->ver == nv_ver_counter && state->m_status == __CPROVER_old(state->m_status))
 
 /* common precondition of every do_get (established by lsearchk_t::get): the state is the valid evaluation at step_size */
 #define NV_DOGET_REQUIRES \
 __CPROVER_requires(NV_STATE_FRESH(state) && NV_STATE_FRESH(state0) && __CPROVER_is_fresh(descent, sizeof(*descent)) && __CPROVER_is_fresh(self, sizeof(*self))) \
 __CPROVER_requires(NV_PARAMS_OK && state0->ver <= nv_ver_counter && state->ver <= nv_ver_counter && nv_ver_counter < UINT64_MAX - 2000000) \
-__CPROVER_requires(NV_AT(state, state0, step_size) && state->valid)
+__CPROVER_requires(NV_AT(state, state0, step_size) && state->valid) \
+/* ... and that step is a finite number (lsearchk_t::get: IEEE semantics, every double t0 including NaN and +-inf) */ \
+__CPROVER_requires(NV_FINITE(step_size))
 #define NV_DOGET_ASSIGNS __CPROVER_assigns(*state, nv_ver_counter, nv_armijo, nv_wolfe, nv_swolfe)
 #define NV_OK __CPROVER_return_value._0
 #define NV_T __CPROVER_return_value._1
@@ -85,7 +90,9 @@ __CPROVER_requires(NV_AT(state, state0, step_size) && state->valid)
 #define NV_DOGET_ENSURES_STATE_K(k) __CPROVER_ensures(NV_OK ==> (NV_AT(state, state0, NV_T) && state->valid)) \
 __CPROVER_ensures(nv_ver_counter >= __CPROVER_old(nv_ver_counter) && state->ver <= nv_ver_counter && state->eval_ver == state->ver && state->m_status == __CPROVER_old(state->m_status)) \
 /* evaluation budget of one line search */ \
-__CPROVER_ensures(nv_ver_counter - __CPROVER_old(nv_ver_counter) <= (k) * (uint64_t)nv_max_iterations)
+__CPROVER_ensures(nv_ver_counter - __CPROVER_old(nv_ver_counter) <= (k) * (uint64_t)nv_max_iterations) \
+/* success => the returned step is finite, whatever the interpolation kernels return (NaN passes through std::clamp) */ \
+__CPROVER_ensures(NV_OK ==> NV_FINITE(NV_T))
 /* backtrack / LeMarechal / Fletcher(+zoom) / More-Thuente: at most max_iterations trial evaluations per loop, at most two loops */
 #define NV_DOGET_ENSURES_STATE NV_DOGET_ENSURES_STATE_K(2)
 
@@ -95,6 +102,7 @@ __CPROVER_ensures(NV_OK ==> (NV_PRED_AT(nv_armijo, state, state0) && NV_SAME(nv_
 #define NV_LOOP_backtrack_do_get_1 \
 __CPROVER_assigns(i, step_size, *state, nv_ver_counter, nv_armijo) \
 __CPROVER_loop_invariant(0 <= i && i <= max_iterations && NV_AT(state, state0, step_size) && NV_VERS(20000)) \
+__CPROVER_loop_invariant(state->valid ==> NV_FINITE(step_size)) \
 __CPROVER_decreases(max_iterations - i)
 
 /* LeMarechal: success => Armijo and Wolfe both evaluated to true on the current trial point */
@@ -103,7 +111,7 @@ __CPROVER_ensures(NV_OK ==> (NV_PRED_AT(nv_armijo, state, state0) && NV_SAME(nv_
 __CPROVER_ensures(NV_OK ==> (NV_PRED_AT(nv_wolfe, state, state0) && nv_wolfe.c == nv_c2))
 #define NV_LOOP_lemarechal_do_get_1 \
 __CPROVER_assigns(i, step_size, L, R, *state, nv_ver_counter, nv_armijo, nv_wolfe) \
-__CPROVER_loop_invariant(1 <= i && i <= (max_iterations > 1 ? max_iterations : 1) && NV_AT(state, state0, step_size) && state->valid && NV_VERS(20000)) \
+__CPROVER_loop_invariant(1 <= i && i <= (max_iterations > 1 ? max_iterations : 1) && NV_AT(state, state0, step_size) && state->valid && NV_FINITE(step_size) && NV_VERS(20000)) \
 __CPROVER_decreases(max_iterations - i)
 
 /* Fletcher: success => Armijo and strong Wolfe both evaluated to true on the current trial point */
@@ -122,7 +130,7 @@ __CPROVER_decreases(max_iterations - i)
 #define NV_CONTRACT_fletcher_do_get NV_DOGET_REQUIRES NV_DOGET_ASSIGNS NV_FLETCHER_ENSURES
 #define NV_LOOP_fletcher_do_get_1 \
 __CPROVER_assigns(i, step_size, prev, curr, *state, nv_ver_counter, nv_armijo, nv_swolfe) \
-__CPROVER_loop_invariant(1 <= i && i <= (max_iterations > 1 ? max_iterations : 1) && NV_AT(state, state0, step_size) && state->valid && NV_VERS(20000)) \
+__CPROVER_loop_invariant(1 <= i && i <= (max_iterations > 1 ? max_iterations : 1) && NV_AT(state, state0, step_size) && state->valid && NV_FINITE(step_size) && NV_VERS(20000)) \
 __CPROVER_decreases(max_iterations - i)
 
 /* More-Thuente (do_get + its step kernel dcstep, both real code): success => the state is the valid evaluation at the
@@ -134,7 +142,7 @@ __CPROVER_decreases(max_iterations - i)
 __CPROVER_ensures(nv_ver_counter - __CPROVER_old(nv_ver_counter) <= (uint64_t)nv_max_iterations)
 #define NV_LOOP_morethuente_do_get_1 \
 __CPROVER_assigns(i, stage, brackt, stp, f, g, stmin, stmax, width, width1, stx, fx, gx, sty, fy, gy, *state, nv_ver_counter) \
-__CPROVER_loop_invariant(0 <= i && i <= max_iterations && NV_AT(state, state0, stp) && state->valid && NV_VERS(20000)) \
+__CPROVER_loop_invariant(0 <= i && i <= max_iterations && NV_AT(state, state0, stp) && state->valid && NV_FINITE(stp) && NV_VERS(20000)) \
 __CPROVER_loop_invariant(NV_SAME(f, state->m_fx) && NV_SAME(g, state->dg)) \
 __CPROVER_decreases(max_iterations - i)
 
@@ -158,16 +166,23 @@ __CPROVER_ensures(NV_OK ==> (state->origin == __CPROVER_old(state->ver) && NV_SA
 /* bookkeeping used by the solvers: the state always stays one consistent evaluation; the ghost counter counts evaluations */ \
 __CPROVER_ensures(state->eval_ver == state->ver && state->ver <= nv_ver_counter && nv_ver_counter >= __CPROVER_old(nv_ver_counter) && nv_ver_counter - __CPROVER_old(nv_ver_counter) <= 10 * (uint64_t)nv_max_iterations) \
 __CPROVER_ensures(NV_OK ==> nv_ver_counter > __CPROVER_old(nv_ver_counter)) \
-__CPROVER_ensures(state->m_status == __CPROVER_old(state->m_status))
+__CPROVER_ensures(state->m_status == __CPROVER_old(state->m_status)) \
+/* every line search that reports success returns a finite step, for EVERY double t0 (NaN and +-inf included) */ \
+__CPROVER_ensures(NV_OK ==> NV_FINITE(NV_T))
+/* lsearchk_t::stpmin() = 10 * machine epsilon (proved: steps/stpmin) */
+#define NV_STPMIN 2.220446049250313e-15
 #define NV_LOOP_lsearchk_get_1 \
 __CPROVER_assigns(i, step_size, *state, nv_ver_counter) \
 __CPROVER_loop_invariant(0 <= i && i <= max_iterations && state0.ver <= nv_ver_counter && state->ver <= nv_ver_counter && nv_ver_counter < UINT64_MAX - 3000000 + i) \
 __CPROVER_loop_invariant(state->eval_ver == state->ver && nv_ver_counter >= __CPROVER_loop_entry(nv_ver_counter) && nv_ver_counter - __CPROVER_loop_entry(nv_ver_counter) <= (uint64_t)i && state->m_status == __CPROVER_loop_entry(state->m_status)) \
 __CPROVER_loop_invariant(i > 0 ==> (state->origin == state0.ver && state->eval_ver == state->ver && state->ver != state0.ver && !state->valid)) \
+/* the FIRST trial step is sanitised: finite and stpmin <= t <= 1 whatever t0 is (a non-finite t0 is replaced, a finite one clamped); \
+ * std::clamp(v, lo, hi) = (v < lo) ? lo : (hi < v) ? hi : v returns NaN for NaN */ \
+__CPROVER_loop_invariant(i == 0 ==> (NV_FINITE(step_size) && NV_STPMIN <= step_size && step_size <= 1.0)) \
 __CPROVER_decreases(max_iterations - i)
 #define NV_LOOP_lsearchk_get_2 \
 __CPROVER_assigns(i, step_size, *state, nv_ver_counter) \
 __CPROVER_loop_invariant(0 <= i && i <= max_iterations && state0.ver <= nv_ver_counter && state->ver <= nv_ver_counter && nv_ver_counter < UINT64_MAX - 2500000 + i) \
 __CPROVER_loop_invariant(state->eval_ver == state->ver && nv_ver_counter >= __CPROVER_loop_entry(nv_ver_counter) && nv_ver_counter - __CPROVER_loop_entry(nv_ver_counter) <= (uint64_t)i && state->m_status == __CPROVER_loop_entry(state->m_status)) \
-__CPROVER_loop_invariant(NV_AT(state, &state0, step_size) && state->valid) \
+__CPROVER_loop_invariant(NV_AT(state, &state0, step_size) && state->valid && NV_FINITE(step_size)) \
 __CPROVER_decreases(max_iterations - i)
